@@ -1,0 +1,58 @@
+//go:build verif
+
+// Contracts for conv/t2j (dgv). Comment-only file.
+package t2j
+
+// buildinTypeToKey, integer map keys: the JSON object key is  "  digits  "  where the number handed to the formatter
+// is the key as the options define it: a BYTE key is 0..255 under ByteAsUint8 and -128..127 otherwise; i16/i32/i64
+// sign-extended. (String keys go through the native NoQuote: excluded by precondition.)
+//@ pure tkey(b []byte, o int, t thrift.Type, u8 bool) int64 = ite(t == thrift.I08, ite(u8, int64(b[o]), int64(int8(b[o]))), \
+//@      ite(t == thrift.I16, int64(int16(thrift.be16(b, o))), ite(t == thrift.I32, int64(int32(thrift.be32(b, o))), int64(thrift.be64(b, o)))))
+//@ pure isik(t thrift.Type) bool = t == thrift.I08 || t == thrift.I16 || t == thrift.I32 || t == thrift.I64
+//@ pure tkw(t thrift.Type) int = ite(t == thrift.I08, 1, ite(t == thrift.I16, 2, ite(t == thrift.I32, 4, 8)))
+
+//@ spec (*BinaryConv).buildinTypeToKey
+//@   props C03 C06
+//@   timeout 40
+//@   requires ptrs: self != nil && p != nil && out != nil && dest != nil && !samerg(out, p) && !samerg(out, *out) && !samerg(p, *out) && !samerg(dest, *out) && \
+//@       !samerg(self, *out) && !samerg(p.Buf, *out) && !samerg(dest, p) && !samerg(dest, out) && !samerg(self, out) && !samerg(self, p)
+//@   requires kind: dest.typ != thrift.STRING
+//@   ensures short: isik(dest.typ) && old(p.Read) + tkw(dest.typ) > len(p.Buf) ==> r0 != nil
+//@   ensures ok: isik(dest.typ) && old(p.Read) + tkw(dest.typ) <= len(p.Buf) ==> r0 == nil && p.Read == old(p.Read) + tkw(dest.typ)
+//@   ensures klen: isik(dest.typ) && old(p.Read) + tkw(dest.typ) <= len(p.Buf) ==> len(*out) == old(len(*out)) + 2 + json.i64len(tkey(p.Buf, old(p.Read), dest.typ, self.opts.ByteAsUint8))
+//@   ensures quotes: isik(dest.typ) && old(p.Read) + tkw(dest.typ) <= len(p.Buf) ==> (*out)[old(len(*out))] == 0x22 && (*out)[len(*out)-1] == 0x22
+//@   ensures digits: isik(dest.typ) && old(p.Read) + tkw(dest.typ) <= len(p.Buf) ==> \
+//@       forall k :: 0 <= k && k < json.i64len(tkey(p.Buf, old(p.Read), dest.typ, self.opts.ByteAsUint8)) ==> \
+//@       (*out)[old(len(*out)) + 1 + k] == json.i64dig(tkey(p.Buf, old(p.Read), dest.typ, self.opts.ByteAsUint8), k)
+//@   ensures other: dest.typ != thrift.I08 && dest.typ != thrift.I16 && dest.typ != thrift.I32 && dest.typ != thrift.I64 ==> r0 != nil
+//@   ensures prefix: forall i :: 0 <= i && i < old(len(*out)) ==> (*out)[i] == old((*out)[i])
+//@   modifies *out, (*out)[len(*out):cap(*out)], p.Read
+
+// doRecurse, scalar kinds (containers and strings are excluded by precondition — written as disequalities so that
+// their branches are pruned): the number handed to the formatter is the big-endian value of the field's type,
+// a BYTE as 0..255 under ByteAsUint8 and as -128..127 otherwise; an i64 is quoted under Int642String; a double is
+// formatted from exactly its 64 bits; a bool becomes true / false.
+//@ spec (*BinaryConv).doRecurse
+//@   props C03 C06
+//@   timeout 40
+//@   requires ptrs: self != nil && p != nil && out != nil && desc != nil && !samerg(out, p) && !samerg(out, *out) && !samerg(p, *out) && !samerg(desc, *out) && \
+//@       !samerg(self, *out) && !samerg(p.Buf, *out) && !samerg(desc, p) && !samerg(desc, out) && !samerg(self, out) && !samerg(self, p)
+//@   requires kind: desc.typ != thrift.STRING && desc.typ != thrift.STRUCT && desc.typ != thrift.LIST && desc.typ != thrift.SET && desc.typ != thrift.MAP
+//@   ensures short: (isik(desc.typ) || desc.typ == thrift.DOUBLE || desc.typ == thrift.BOOL) && old(p.Read) + ite(desc.typ == thrift.BOOL, 1, ite(desc.typ == thrift.DOUBLE, 8, tkw(desc.typ))) > len(p.Buf) ==> err != nil
+//@   ensures iok: isik(desc.typ) && old(p.Read) + tkw(desc.typ) <= len(p.Buf) ==> err == nil && p.Read == old(p.Read) + tkw(desc.typ)
+//@   ensures ilen: isik(desc.typ) && old(p.Read) + tkw(desc.typ) <= len(p.Buf) && !(desc.typ == thrift.I64 && self.opts.Int642String) ==> \
+//@       len(*out) == old(len(*out)) + json.i64len(tkey(p.Buf, old(p.Read), desc.typ, self.opts.ByteAsUint8))
+//@   ensures idigits: isik(desc.typ) && old(p.Read) + tkw(desc.typ) <= len(p.Buf) && !(desc.typ == thrift.I64 && self.opts.Int642String) ==> \
+//@       forall k :: 0 <= k && k < json.i64len(tkey(p.Buf, old(p.Read), desc.typ, self.opts.ByteAsUint8)) ==> \
+//@       (*out)[old(len(*out)) + k] == json.i64dig(tkey(p.Buf, old(p.Read), desc.typ, self.opts.ByteAsUint8), k)
+//@   ensures qlen: desc.typ == thrift.I64 && self.opts.Int642String && old(p.Read) + 8 <= len(p.Buf) ==> \
+//@       len(*out) == old(len(*out)) + 2 + json.i64len(int64(thrift.be64(p.Buf, old(p.Read)))) && (*out)[old(len(*out))] == 0x22 && (*out)[len(*out)-1] == 0x22
+//@   ensures dlen: desc.typ == thrift.DOUBLE && old(p.Read) + 8 <= len(p.Buf) ==> err == nil && p.Read == old(p.Read) + 8 && \
+//@       len(*out) == old(len(*out)) + json.f64len(thrift.be64(p.Buf, old(p.Read)))
+//@   ensures ddigits: desc.typ == thrift.DOUBLE && old(p.Read) + 8 <= len(p.Buf) ==> forall k :: 0 <= k && k < json.f64len(thrift.be64(p.Buf, old(p.Read))) ==> \
+//@       (*out)[old(len(*out)) + k] == json.f64dig(thrift.be64(p.Buf, old(p.Read)), k)
+//@   ensures btrue: desc.typ == thrift.BOOL && old(p.Read) + 1 <= len(p.Buf) && p.Buf[old(p.Read)] == 1 ==> err == nil && len(*out) == old(len(*out)) + 4 && \
+//@       (*out)[old(len(*out))] == 0x74 && (*out)[old(len(*out))+1] == 0x72 && (*out)[old(len(*out))+2] == 0x75 && (*out)[old(len(*out))+3] == 0x65
+//@   ensures bfalse: desc.typ == thrift.BOOL && old(p.Read) + 1 <= len(p.Buf) && p.Buf[old(p.Read)] != 1 ==> err == nil && len(*out) == old(len(*out)) + 5 && (*out)[old(len(*out))] == 0x66
+//@   ensures prefix: forall i :: 0 <= i && i < old(len(*out)) ==> (*out)[i] == old((*out)[i])
+//@   modifies *out, (*out)[len(*out):cap(*out)], p.Read
